@@ -424,6 +424,7 @@ func checkConv(p *Prog, r *Report, pkg, prop string) {
 	ruleAppendDiscipline(p, r, "R-KE", pkg, "diff.go", map[string]int{"panos": 8, "nsx": 10, "linux": 2}[pkg])
 	ruleCaseFolding(p, r, "R-FOLD", prop, map[string]bool{pkg: true})
 	ruleConstantFormats(p, r, "R-FMT")
+	ruleMapsCopy(p, r, "R-MC")
 	ruleNoClockInComputation(p, r, "R-CLK")
 	ruleRegexpConsts(p, r, "R-RX", prop, 1)
 	if pkg == "panos" || pkg == "nsx" {
